@@ -49,7 +49,8 @@ class TLCResult:
         self.out_path = None
         self.cmd = ""
         self.wall = 0.0
-        self.coverage_zero = []  # actions/expressions with count 0 (coverage runs)
+        self.coverage_zero = []  # actions with count 0 (coverage runs)
+        self.coverage_zero_expr = []  # expressions never evaluated (coverage runs): "line a, col b to ... of module M"
         self.rejected_line = None
         self.counterexample = []  # raw state dump lines of a counterexample
 
@@ -245,7 +246,7 @@ class Ctx:
     _re_depth = re.compile(r"The depth of the complete state graph search is (\d+)")
     _re_inv = re.compile(r"Error: Invariant (\S+) is violated")
     _re_prop = re.compile(r"Error: (?:Temporal properties were violated|Action property (\S+) is violated)")
-    _re_cov0 = re.compile(r"^\s*(\|*)?\s*(line \d+, col \d+ to line \d+, col \d+ of module \S+): 0\s*$")
+    _re_cov0 = re.compile(r"^\s*(\|*)\s*(line \d+, col \d+ to line \d+, col \d+ of module \S+): 0\s*$")
     _re_act = re.compile(r"^<(\w+) (line \d+, col \d+ to line \d+, col \d+ of module \w+)>: (\d+):(\d+)")
 
     def _parse_tlc(self, res):
@@ -295,6 +296,9 @@ class Ctx:
                 m = self._re_act.match(line)
                 if m and int(m.group(3)) == 0:
                     res.coverage_zero.append(m.group(1))
+                m = self._re_cov0.match(line)
+                if m:
+                    res.coverage_zero_expr.append(m.group(2))
                 if line.startswith("Error:") or in_err:
                     in_err = True
                     errs.append(line)
